@@ -571,7 +571,7 @@ var prattModel = &Model{Name: "pratt", Gen: prattGen, Impl: prattImpl, Shrink: p
 
 func init() {
 	props["C03"] = &PropSpec{
-		Models:  []*Model{prattModel},
+		Models:  []*Model{prattModel, c03StmtModel},
 		Oracles: []*Oracle{{Name: "c03-grammar-generator", Run: c03Oracle}},
 	}
 }
